@@ -6,7 +6,9 @@
 (* and the hooked index buckets).  Each event must be explained by          *)
 (* JsonObject!Apply from the state reached so far.  A mismatching event is  *)
 (* recorded in `bad` and the specification re-synchronises on the observed  *)
-(* entries, so the rest of the trace is still checked.                      *)
+(* entries, so the rest of the trace is still checked.  "obs" events (C14)   *)
+(* record that the object, hashed and compared at that point of its        *)
+(* history, equals / compares Equal / hashes like a rebuilt object.        *)
 (***************************************************************************)
 EXTENDS JsonObject, TLC, Json, IOUtils
 
@@ -28,6 +30,10 @@ TrNext ==
   /\ LET e == Rec[l] IN
      IF e.ev = "reset"
      THEN o' = EmptyObj /\ bad' = bad
+     ELSE IF e.ev = "obs"
+     \* C14: whatever ==, cmp and hash observe is a function of the entries: the object, observed at this point of its
+     \* history, is indistinguishable from one rebuilt from the entries the specification holds
+     THEN o' = o /\ bad' = IF e.same /\ e.entries = o.entries THEN bad ELSE Append(bad, l)
      ELSE LET r == Apply(o, e.op) IN
           IF Explains(r, e)
           THEN o' = r.obj /\ bad' = bad
